@@ -254,7 +254,8 @@ class MHLHistory:
                 if (len(filename) > 2 and filename[:2] == "._") or not filename.endswith(ascmhl_file_extension):
                     continue
                 filename_no_extension, _ = os.path.splitext(filename)
-                parts = re.findall(MHLHistory.history_file_name_regex, filename_no_extension)
+                # the folder name is part of the file name and may contain any character, also a line feed
+                parts = re.findall(MHLHistory.history_file_name_regex, filename_no_extension, re.DOTALL)
                 if len(parts) == 1 and len(parts[0]) == 2:
                     file_path = os.path.join(asc_mhl_folder_path, filename)
                     hash_list = hashlist_xml_parser.parse(file_path)
